@@ -34,7 +34,9 @@ def _worker(pid, spec, known):
         env.quiet()
         env.check_import_origin()
         rec = core.Recorder(pid, known)
-        prop.run_shard(spec, rec)
+        import contextlib
+        with open(os.devnull, "w") as dn, contextlib.redirect_stdout(dn):  # the library prints notices
+            prop.run_shard(spec, rec)
         d = rec.dump()
         d["wall_s"] = time.time() - t0
         d["spec"] = spec
